@@ -5,8 +5,11 @@ go 1.14
 require (
 	github.com/golang/protobuf v1.4.3
 	github.com/hashicorp/memberlist v0.2.2
+	github.com/vx-labs/commitlog v1.2.4
 	github.com/vx-labs/mqtt-protocol v5.1.1+incompatible
 	github.com/vx-labs/wasp/v4 v4.0.0
+	go.uber.org/zap v1.16.0
+	google.golang.org/grpc v1.33.2
 )
 
 replace github.com/vx-labs/wasp/v4 => /repo
